@@ -30,7 +30,9 @@ RULE = ("histories = 1-2 batch_run calls (sometimes the very same call twice) on
         "explicit collection patterns (gaps and duplicates), 6 SCALE cases (max_steps 255/256/257/258/300/512/1000 with periods 1, 2, 7, 50, "
         "64, 100, 128, 256, 257, 300, -1 and early stops at 256..512 on tiny models; designs of 200-600 runs; scalar parameters as numpy "
         "scalars and bools), 24 cases with USER CLASSES as parameter values (sequence-protocol only, __iter__ only, one-shot iterator, both, "
-        "mapping-like: swept element by element / key by key; str subclass and sized-but-not-iterable object incl. a falsy one: one value); 4 (quick) / "
+        "mapping-like, generators: swept element by element / key by key; str subclass and sized-but-not-iterable object incl. a falsy one: one "
+        "value), 10 oracle-only SEEDED cases (seed / rng as int, str, float, bytes; reporters drawing from model.random and model.rng; serial "
+        "= by hand = 2 spawned-worker calls without an inherited PYTHONHASHSEED); 4 (quick) / "
         "40 (thorough) calls with number_processes 2-3 run in a helper process and compared with the serial call and row by row "
         "with their run; the multiset of rows is observed; non-trivial = at least 2 rows; distinct = by SHA1")
 TRUSTED_BASE = [
@@ -144,6 +146,9 @@ def gen_cases(rng, tier):
     # periods 1, dividing, not dividing, -1 and early stops beyond 256; tiny models, one iteration; and designs with hundreds
     # of combinations x iterations; scalar parameters as numpy scalars / bools
     cases += _scale_cases(rng, 6 if tier == "quick" else 60)
+    # SEEDED models (oracle-only): seed / rng of every accepted form, draws from model.random and model.rng, serial = by hand = spawned
+    # workers that do not inherit PYTHONHASHSEED
+    cases += _seeded_cases(rng, 10 if tier == "quick" else 60, 2 if tier == "quick" else 8)
     # USER CLASSES as parameter values (harness/USERCODE_NOTE.md B): sequence-protocol only, __iter__ only, one-shot iterator,
     # both, mapping-like (swept element by element / key by key); str subclass, sized-but-not-iterable object (one value)
     for j in range(24 if tier == "quick" else 240):
@@ -478,7 +483,92 @@ def _expected_rows(run_id, iteration, kw, log, period, ar):
     return rows
 
 
+def _seed_value(sv):
+    kind, v = sv
+    return {"int": int, "str": str, "float": float, "bytes": lambda x: x.encode()}[kind](v)
+
+
+def seeded_rows(case, nproc):
+    """rows of batch_run(SeedModel, ...) as repr strings (floats, str and bytes seeds survive the trip through JSON)"""
+    import contextlib
+    import io
+
+    import mesa
+    from props.batch_models import SeedModel
+
+    params = {case["which"]: [_seed_value(sv) for sv in case["seeds"]], "n": case["n"]}
+    with contextlib.redirect_stderr(io.StringIO()):
+        rows = mesa.batch_run(SeedModel, params, number_processes=nproc, iterations=case["iterations"],
+                              data_collection_period=case["period"], max_steps=case["max_steps"], display_progress=False)
+    return sorted(repr(sorted(r.items())) for r in rows)
+
+
+def _run_seeded(case):
+    """seeded models: every accepted form of seed / rng (int, str, float, bytes), reporters drawing from model.random and
+    model.rng; the rows of number_processes=1, of spawned workers WITHOUT an inherited PYTHONHASHSEED and of constructing and
+    stepping the model by hand must be the same"""
+    from props.batch_models import SeedModel
+
+    failures = []
+
+    def fail(key, what):
+        failures.append({"key": key, "op": 0, "what": what[:700]})
+
+    serial = seeded_rows(case, 1)
+    hand = []
+    rid = 0
+    for it in range(case["iterations"]):
+        for sv in case["seeds"]:
+            for n in case["n"]:
+                kw = {case["which"]: _seed_value(sv), "n": n}
+                m = SeedModel(**kw)
+                while m.running and m.steps < case["max_steps"]:
+                    m.step()
+                dc = m.datacollector
+                steps = list(dict.fromkeys(dc._collection_steps))
+                req = [s_ for s_ in steps if case["period"] > 0 and s_ % case["period"] == 0]
+                if steps and (not req or req[-1] != steps[-1]):
+                    req.append(steps[-1])
+                for s_ in req:
+                    j = max(i_ for i_, x in enumerate(dc._collection_steps) if x == s_)
+                    hand.append(repr(sorted({"RunId": rid, "iteration": it, "Step": s_, **kw, **{k: v[j] for k, v in dc.model_vars.items()}}.items())))
+                rid += 1
+    if sorted(hand) != serial:
+        d = [r for r in serial if r not in hand][:2]
+        fail("C13/batch_run/rows-differ-from-by-hand", f"seeded models {case}: batch_run rows {d} ... are not what constructing and stepping the same "
+                                                       f"seeded model by hand yields {[r for r in hand if r not in serial][:2]}")
+    if case["nproc"] > 1:
+        env = {k: v for k, v in os.environ.items() if k != "PYTHONHASHSEED"}     # the workers get their own hash salt
+        p = subprocess.run([sys.executable, os.path.join(HERE, "batch_par.py")], input=json.dumps({"seeded": case, "nproc": case["nproc"]}),
+                           capture_output=True, text=True, env=env, timeout=300)
+        try:
+            par = json.loads(p.stdout)["rows"]
+        except Exception:  # noqa: BLE001
+            par = None
+            fail("C13/batch_run/parallel-failed", f"number_processes={case['nproc']}: {p.stderr[-400:]}")
+        if par is not None and par != serial:
+            d = [r for r in par if r not in serial][:2]
+            fail("C13/batch_run/parallel-rows-differ", f"seeded models {case}: number_processes={case['nproc']} (workers without an inherited "
+                                                       f"PYTHONHASHSEED) returned rows {d} that number_processes=1 does not: {[r for r in serial if r not in par][:2]}")
+    return {"obs": [[0] for _ in case["ops"]], "failures": failures, "model": False}
+
+
+def _seeded_cases(rng, count, npar):
+    out = []
+    pool = [["int", 5], ["int", 2 ** 40 + 3], ["str", "abc"], ["str", "model-7"], ["str", ""], ["float", 1.5], ["float", 0.1], ["bytes", "ab"]]
+    for j in range(count):
+        which = "rng" if j % 4 == 3 else "seed"
+        seeds = rng.sample(pool, rng.randint(2, 4)) if which == "seed" else [["int", rng.randint(0, 99)] for _ in range(2)]
+        if j < npar and which == "seed" and not any(s_[0] == "str" for s_ in seeds):
+            seeds[0] = ["str", "abc"]
+        out.append({"kind": "seeded", "which": which, "seeds": seeds, "n": rng.choice([[1], [0, 2]]), "iterations": rng.choice([1, 2]),
+                    "max_steps": rng.randint(0, 3), "period": rng.choice([-1, 1]), "nproc": 2 if j < npar else 1, "ops": [["seeded"]]})
+    return out
+
+
 def run_impl(case):
+    if case.get("kind") == "seeded":
+        return _run_seeded(case)
     from props.batch_models import BM
 
     objects = case["objects"]
@@ -631,6 +721,8 @@ def _c_pspec(p):
 
 
 def coq_case(case):
+    if case.get("kind") == "seeded":           # oracle-only: nothing for the Z-valued model
+        return "{| b_ops := [] |}"
     ops = []
     for op in case["ops"]:
         _, params, iterations, max_steps, period = op[:5]
@@ -640,6 +732,8 @@ def coq_case(case):
 
 
 def op_kinds(case):
+    if case.get("kind") == "seeded":
+        return [f"seeded/{case['which']}/nproc={case['nproc']}"] + [f"seeded/{s_[0]}" for s_ in case["seeds"]]
     out = []
     for op in case["ops"]:
         _, params, iterations, max_steps, period, nproc = op[:6]
@@ -649,6 +743,8 @@ def op_kinds(case):
 
 
 def nontrivial(case):
+    if case.get("kind") == "seeded":
+        return True
     return any(len(o) > 2 and o[0] == 0 and o[1] >= 2 for o in case.get("_obs", []))
 
 
